@@ -11,6 +11,9 @@ folds at 255-40-1, joins with "", applies SHA-1 and hex, and uses no clock / ran
 theorem generated_tempdir_shape :
     (let l := Scipipe.Task_TempDir
      l.any (fun a => a.isCall "sanitizePathFragment" && a.args == ["t.Name"]) &&
+     -- the hash starts from the raw process name (the sanitised one only decorates the prefix)
+     l.any (fun a => a.kind == .assign_ && a.name == "hashPcs" && a.recv == ":=" && a.args == ["[]string{t.Name}"]) &&
+     l.any (fun a => a.kind == .assign_ && a.name == "pathPrefix" && a.recv == ":=" && a.args == ["tempDirPrefix + \".\" + sanitizePathFragment(t.Name)"]) &&
      l.any (fun a => a.isCall "sortedFileIPMapKeys" && a.args == ["t.InIPs"]) &&
      l.any (fun a => a.isCall "sortedFileIPSliceMapKeys" && a.args == ["t.subStreamIPs"]) &&
      l.any (fun a => a.isCall "sortedStringMapKeys" && a.args == ["t.Params"]) &&
